@@ -29,7 +29,7 @@ Section Cache.
     (forall p q, V p -> V q -> nid p = nid q -> p = q).
   (* the engine returns nodes of the tree *)
   Hypothesis query_V : forall x p ps, V p -> query x p = Some ps -> Forall V ps.
-  Hypothesis top_wf : wf_b true top = true.
+  Hypothesis top_wf : disable = false -> wf_b true top = true.
 
   Notation peval := (peval root query ext fsigs fcall pcall).
   Notation pcompile := (pcompile root query ext fsigs fcall pcall).
@@ -220,9 +220,9 @@ Section Cache.
     - intros p m Hv Hi. split; [reflexivity|exact Hi].
   Qed.
 
-  Lemma D_wf d : D d -> exists t, wf_b t d = true.
+  Lemma D_wf d : disable = false -> D d -> exists t, wf_b t d = true.
   Proof.
-    intro Hd. destruct (wf_b_sub top true top_wf d Hd) as [->|H]; eauto.
+    intros Hdis Hd. destruct (wf_b_sub top true (top_wf Hdis) d Hd) as [->|H]; eauto.
   Qed.
 
   Lemma wf_hash d t : wf_b t d = true -> e_hash (ei d) = pub_of d.
@@ -232,10 +232,10 @@ Section Cache.
 
   (* declarations of the tree that produce the same cache key denote the same function *)
   Lemma same_key_same_eval d1 d2 :
-    D d1 -> D d2 -> e_hash (ei d1) = e_hash (ei d2) -> e_needed (ei d1) = e_needed (ei d2) ->
+    disable = false -> D d1 -> D d2 -> e_hash (ei d1) = e_hash (ei d2) -> e_needed (ei d1) = e_needed (ei d2) ->
     forall p, peval d1 p = peval d2 p.
   Proof.
-    intros H1 H2 Hh Hn p. destruct (D_wf _ H1) as [t1 W1]. destruct (D_wf _ H2) as [t2 W2].
+    intros Hdis H1 H2 Hh Hn p. destruct (D_wf _ Hdis H1) as [t1 W1]. destruct (D_wf _ Hdis H2) as [t2 W2].
     unfold EvalPure.peval.
     rewrite (same_pub_same_eval root query ext fsigs fcall pcall d1 d2 t1 t2 W1 W2); [reflexivity| |exact Hn].
     rewrite <- (wf_hash _ _ W1), <- (wf_hash _ _ W2). exact Hh.
@@ -251,9 +251,10 @@ Section Cache.
     ev_ok (parse_node root query ext fsigs fcall pcall K K_eqb nid disable false (ei d) xd cs) (peval d).
   Proof.
     intros Hd Hdisp p m Hv Hi. unfold parse_node.
-    destruct disable eqn:Hdis.
+    assert (Hcase : disable = true \/ disable = false) by (clear; destruct disable; auto).
+    destruct Hcase as [Hdis|Hdis]; rewrite Hdis.
     - apply Hdisp; assumption.
-    - destruct (Hkeys eq_refl) as [Keq Ninj].
+    - destruct (Hkeys Hdis) as [Keq Ninj].
       assert (InvE : forall m0, Inv m0 <-> memo_ok m0).
       { intro m0. unfold Inv. tauto. }
       pose proof (proj1 (InvE m) Hi) as Hm.
@@ -270,7 +271,7 @@ Section Cache.
           apply andb_prop in Q as [Q Qh]. apply andb_prop in Q as [Qk Qb].
           apply Keq in Qk. apply Bool.eqb_prop in Qb. apply pdecl_eqb_eq in Qh. subst k h b.
           assert (p' = p) as -> by (apply Ninj; assumption).
-          rewrite (same_key_same_eval d' d Hd' Hd Hh Hb p). symmetry. exact H1.
+          rewrite (same_key_same_eval d' d Hdis Hd' Hd Hh Hb p). symmetry. exact H1.
         * eapply H2; eauto.
   Qed.
 
@@ -346,7 +347,7 @@ Section Corollaries.
   Proof.
     intros Hd Hv. unfold Eval.eval_nocache.
     refine (proj1 (eval_denotes root query ext fsigs fcall pcall unit (fun _ _ => true) (fun _ => tt) true
-                     V top _ query_V top_wf d p [] Hd Hv _)).
+                     V top _ query_V (fun _ => top_wf) d p [] Hd Hv _)).
     - intro H. discriminate.
     - intros k h b v G. discriminate.
   Qed.
@@ -378,7 +379,7 @@ Section Corollaries.
   Proof.
     intros K K_eqb nid disable Hkeys d p m Hd Hv Hm.
     apply memo_sound_ok in Hm.
-    destruct (eval_denotes root query ext fsigs fcall pcall K K_eqb nid disable V top Hkeys query_V top_wf d p m Hd Hv Hm)
+    destruct (eval_denotes root query ext fsigs fcall pcall K K_eqb nid disable V top Hkeys query_V (fun _ => top_wf) d p m Hd Hv Hm)
       as [H1 H2].
     split; [rewrite H1; symmetry; apply nocache_denotes; assumption|].
     apply memo_sound_ok. exact H2.
@@ -413,3 +414,17 @@ Section Corollaries.
     intros. rewrite !eval_cache_transparent by assumption. reflexivity.
   Qed.
 End Corollaries.
+
+(* cache off = the memo-free denotation, for ANY tree, declaration and node *)
+Lemma nocache_peval root query ext fsigs fcall pcall d p :
+  eval_nocache root query ext fsigs fcall pcall d p = peval root query ext fsigs fcall pcall d p.
+Proof.
+  unfold Eval.eval_nocache.
+  refine (proj1 (eval_denotes root query ext fsigs fcall pcall unit (fun _ _ => true) (fun _ => tt) true
+                   (fun _ => True) d _ _ _ d p [] _ I _)).
+  - intro H. discriminate.
+  - intros x q ps _ _. apply Forall_forall. intros; exact I.
+  - intro H. discriminate.
+  - destruct d. cbn [subdecls]. left. reflexivity.
+  - intros k h b v G. discriminate.
+Qed.
